@@ -92,6 +92,106 @@ Theorem C20_preconditioner_extents_correct : forall size cdim (pts : list (list 
 Proof. exact precond_lowest_correct. Qed.
 Print Assumptions C20_preconditioner_extents_correct.
 
+(* --- oriented boxes, 2D and 3D (the instantiated dimensions).  [orthogonal2/3]: R R^T = I and R^T R = I, which every
+       proper rotation satisfies (C20_ex_rotation2, C20_ex_rotation3_z, C20_ex_rotation3_perm). --- *)
+
+(* containment = the point expressed in the box frame, R^T (p - c), lies within +- half extents (closed) *)
+Theorem C20_obb_inside_iff_2d : forall c0 c1 h0 h1 r00 r01 r10 r11 p0 p1 : R,
+  obb_inside ROps {| o_center := [c0; c1]; o_half := [h0; h1]; o_rot := [[r00; r01]; [r10; r11]] |} [p0; p1] = true <->
+  Rabs (r00 * (p0 - c0) + r10 * (p1 - c1)) <= h0 /\ Rabs (r01 * (p0 - c0) + r11 * (p1 - c1)) <= h1.
+Proof. exact obb2_inside_frame. Qed.
+Print Assumptions C20_obb_inside_iff_2d.
+
+(* ... which, for a rotation, is membership in the rotated and translated box {c + R q : |q_j| <= h_j} *)
+Theorem C20_obb_inside_is_rigid_image_2d : forall c0 c1 h0 h1 r00 r01 r10 r11 p0 p1 : R,
+  orthogonal2 r00 r01 r10 r11 ->
+  (obb_inside ROps {| o_center := [c0; c1]; o_half := [h0; h1]; o_rot := [[r00; r01]; [r10; r11]] |} [p0; p1] = true <->
+   exists q0 q1, Rabs q0 <= h0 /\ Rabs q1 <= h1 /\ p0 = c0 + (r00 * q0 + r01 * q1) /\ p1 = c1 + (r10 * q0 + r11 * q1)).
+Proof. exact obb2_inside_geometric. Qed.
+Print Assumptions C20_obb_inside_is_rigid_image_2d.
+
+Theorem C20_obb_to_aabb_encloses_2d : forall c0 c1 h0 h1 r00 r01 r10 r11 p0 p1 : R,
+  orthogonal2 r00 r01 r10 r11 ->
+  let o := {| o_center := [c0; c1]; o_half := [h0; h1]; o_rot := [[r00; r01]; [r10; r11]] |} in
+  obb_inside ROps o [p0; p1] = true -> aabb_inside ROps (obb_to_aabb ROps o) [p0; p1] = true.
+Proof. exact obb2_to_aabb_encloses. Qed.
+Print Assumptions C20_obb_to_aabb_encloses_2d.
+
+(* tight: each of the four faces x = c0 +- e0, y = c1 +- e1 of the derived box is touched by a corner c + R(+-h0, +-h1),
+   and the corners belong to the oriented box *)
+Theorem C20_obb_to_aabb_tight_2d : forall c0 c1 h0 h1 r00 r01 r10 r11 : R, 0 <= h0 -> 0 <= h1 ->
+  let o := {| o_center := [c0; c1]; o_half := [h0; h1]; o_rot := [[r00; r01]; [r10; r11]] |} in
+  let e0 := (a_half (obb_to_aabb ROps o)).[0%nat] in let e1 := (a_half (obb_to_aabb ROps o)).[1%nat] in
+  let corner := corner2 c0 c1 h0 h1 r00 r01 r10 r11 in
+  (exists p0 p1, corner p0 p1 /\ p0 = c0 + e0) /\ (exists p0 p1, corner p0 p1 /\ p0 = c0 - e0) /\
+  (exists p0 p1, corner p0 p1 /\ p1 = c1 + e1) /\ (exists p0 p1, corner p0 p1 /\ p1 = c1 - e1).
+Proof. exact obb2_to_aabb_tight. Qed.
+Print Assumptions C20_obb_to_aabb_tight_2d.
+
+Theorem C20_obb_corners_belong_2d : forall c0 c1 h0 h1 r00 r01 r10 r11 p0 p1 : R,
+  0 <= h0 -> 0 <= h1 -> orthogonal2 r00 r01 r10 r11 -> corner2 c0 c1 h0 h1 r00 r01 r10 r11 p0 p1 ->
+  obb_inside ROps {| o_center := [c0; c1]; o_half := [h0; h1]; o_rot := [[r00; r01]; [r10; r11]] |} [p0; p1] = true.
+Proof. exact corner2_inside. Qed.
+
+Theorem C20_obb_inside_iff_3d : forall c0 c1 c2 h0 h1 h2 r00 r01 r02 r10 r11 r12 r20 r21 r22 p0 p1 p2 : R,
+  obb_inside ROps {| o_center := [c0; c1; c2]; o_half := [h0; h1; h2];
+                     o_rot := [[r00; r01; r02]; [r10; r11; r12]; [r20; r21; r22]] |} [p0; p1; p2] = true <->
+  Rabs (r00 * (p0 - c0) + r10 * (p1 - c1) + r20 * (p2 - c2)) <= h0 /\
+  Rabs (r01 * (p0 - c0) + r11 * (p1 - c1) + r21 * (p2 - c2)) <= h1 /\
+  Rabs (r02 * (p0 - c0) + r12 * (p1 - c1) + r22 * (p2 - c2)) <= h2.
+Proof. exact obb3_inside_frame. Qed.
+Print Assumptions C20_obb_inside_iff_3d.
+
+Theorem C20_obb_inside_is_rigid_image_3d : forall c0 c1 c2 h0 h1 h2 r00 r01 r02 r10 r11 r12 r20 r21 r22 p0 p1 p2 : R,
+  orthogonal3 r00 r01 r02 r10 r11 r12 r20 r21 r22 ->
+  (obb_inside ROps {| o_center := [c0; c1; c2]; o_half := [h0; h1; h2];
+                      o_rot := [[r00; r01; r02]; [r10; r11; r12]; [r20; r21; r22]] |} [p0; p1; p2] = true <->
+   exists q0 q1 q2, Rabs q0 <= h0 /\ Rabs q1 <= h1 /\ Rabs q2 <= h2 /\
+     p0 = c0 + (r00 * q0 + r01 * q1 + r02 * q2) /\ p1 = c1 + (r10 * q0 + r11 * q1 + r12 * q2) /\
+     p2 = c2 + (r20 * q0 + r21 * q1 + r22 * q2)).
+Proof. exact obb3_inside_geometric. Qed.
+Print Assumptions C20_obb_inside_is_rigid_image_3d.
+
+Theorem C20_obb_to_aabb_encloses_3d : forall c0 c1 c2 h0 h1 h2 r00 r01 r02 r10 r11 r12 r20 r21 r22 p0 p1 p2 : R,
+  orthogonal3 r00 r01 r02 r10 r11 r12 r20 r21 r22 ->
+  let o := {| o_center := [c0; c1; c2]; o_half := [h0; h1; h2];
+              o_rot := [[r00; r01; r02]; [r10; r11; r12]; [r20; r21; r22]] |} in
+  obb_inside ROps o [p0; p1; p2] = true -> aabb_inside ROps (obb_to_aabb ROps o) [p0; p1; p2] = true.
+Proof. exact obb3_to_aabb_encloses. Qed.
+Print Assumptions C20_obb_to_aabb_encloses_3d.
+
+Theorem C20_obb_to_aabb_tight_3d : forall c0 c1 c2 h0 h1 h2 r00 r01 r02 r10 r11 r12 r20 r21 r22 : R,
+  0 <= h0 -> 0 <= h1 -> 0 <= h2 ->
+  let o := {| o_center := [c0; c1; c2]; o_half := [h0; h1; h2];
+              o_rot := [[r00; r01; r02]; [r10; r11; r12]; [r20; r21; r22]] |} in
+  let e0 := (a_half (obb_to_aabb ROps o)).[0%nat] in let e1 := (a_half (obb_to_aabb ROps o)).[1%nat] in
+  let e2 := (a_half (obb_to_aabb ROps o)).[2%nat] in
+  let corner := corner3 c0 c1 c2 h0 h1 h2 r00 r01 r02 r10 r11 r12 r20 r21 r22 in
+  (exists p0 p1 p2, corner p0 p1 p2 /\ p0 = c0 + e0) /\ (exists p0 p1 p2, corner p0 p1 p2 /\ p0 = c0 - e0) /\
+  (exists p0 p1 p2, corner p0 p1 p2 /\ p1 = c1 + e1) /\ (exists p0 p1 p2, corner p0 p1 p2 /\ p1 = c1 - e1) /\
+  (exists p0 p1 p2, corner p0 p1 p2 /\ p2 = c2 + e2) /\ (exists p0 p1 p2, corner p0 p1 p2 /\ p2 = c2 - e2).
+Proof. exact obb3_to_aabb_tight. Qed.
+Print Assumptions C20_obb_to_aabb_tight_3d.
+
+Theorem C20_obb_corners_belong_3d : forall c0 c1 c2 h0 h1 h2 r00 r01 r02 r10 r11 r12 r20 r21 r22 p0 p1 p2 : R,
+  0 <= h0 -> 0 <= h1 -> 0 <= h2 -> orthogonal3 r00 r01 r02 r10 r11 r12 r20 r21 r22 ->
+  corner3 c0 c1 c2 h0 h1 h2 r00 r01 r02 r10 r11 r12 r20 r21 r22 p0 p1 p2 ->
+  obb_inside ROps {| o_center := [c0; c1; c2]; o_half := [h0; h1; h2];
+                     o_rot := [[r00; r01; r02]; [r10; r11; r12]; [r20; r21; r22]] |} [p0; p1; p2] = true.
+Proof. exact corner3_inside. Qed.
+
 (* --- non-vacuity --- *)
+Example C20_ex_rotation2 : forall a, orthogonal2 (cos a) (- sin a) (sin a) (cos a).
+Proof. exact rotation2_orthogonal. Qed.
+Example C20_ex_rotation3_z : forall a, orthogonal3 (cos a) (- sin a) 0 (sin a) (cos a) 0 0 0 1.
+Proof. exact rotation3_z_orthogonal. Qed.
+Example C20_ex_rotation3_perm : orthogonal3 0 0 1 1 0 0 0 1 0.
+Proof. exact rotation3_perm_orthogonal. Qed.
+Example C20_ex_bounded : bounded [[-3; -4]; [-1; -2]].
+Proof.
+  pose proof maxval_ge_4 as M4.
+  intros p x [<-|[<-|[]]] Hx; simpl in Hx;
+    repeat (destruct Hx as [<-|Hx]; [rewrite Rabs_left by lra; lra|]); contradiction.
+Qed.
 Example C20_ex_inside : aabb_inside ROps {| a_center := [1; 2]; a_half := [1; 0] |} [2; 2] = true.
 Proof. apply C20_aabb_inside_iff; auto. intros [|[|i]] Hi; cbn in *; try lia; lra. Qed.
